@@ -105,10 +105,10 @@ func builderModelCases(r *rand.Rand, n int) []caseOut {
 		devs := map[int][]string{
 			0: {"no-patches", "equal-commitments", "update-commitment-other-algorithm", "recovery-commitment-other-algorithm", "unsupported-algorithm"},
 			1: {"empty-suffix", "empty-reveal", "no-patches", "key-without-kty", "key-without-crv", "key-without-x", "reused-key-update-commitment",
-				"update-commitment-other-algorithm", "unsupported-algorithm", "key-with-nonce"},
+				"update-commitment-other-algorithm", "unsupported-algorithm", "key-with-nonce", "nonced-key-reused-with-its-nonce", "nonced-key-then-the-bare-key"},
 			2: {"empty-suffix", "empty-reveal", "key-without-kty", "key-without-crv", "key-without-x", "key-with-nonce"},
 			3: {"empty-suffix", "empty-reveal", "no-patches", "key-without-kty", "key-without-crv", "key-without-x", "reused-key-recovery-commitment",
-				"equal-commitments", "update-commitment-other-algorithm", "recovery-commitment-other-algorithm", "unsupported-algorithm", "key-with-nonce"},
+				"equal-commitments", "update-commitment-other-algorithm", "recovery-commitment-other-algorithm", "unsupported-algorithm", "key-with-nonce", "nonced-key-reused-with-its-nonce", "nonced-key-then-the-bare-key"},
 		}[i%4]
 		if j := (i / 4) % (len(devs) + 3); j >= 3 {
 			label = devs[j-3]
@@ -140,6 +140,24 @@ func builderModelCases(r *rand.Rand, n int) []caseOut {
 			code = 55
 		case "key-with-nonce":
 			key.Nonce = b64([]byte("0123456789abcdef"))
+		case "nonced-key-reused-with-its-nonce", "nonced-key-then-the-bare-key":
+			// the signing key carries a nonce; the next commitment is that of the same key with the same
+			// nonce (a reused key: refused) or of the bare key material (another JWK, another commitment: built)
+			key.Nonce = b64([]byte("0123456789abcdef"))
+			withNonce := *cur
+			withNonce.nonce = key.Nonce
+			reveal = revealOf(withNonce.jwk(), uint64(code))
+			reused := commitmentOf(withNonce.jwk(), uint64(code))
+			if label == "nonced-key-then-the-bare-key" {
+				bare := *cur
+				bare.nonce = ""
+				reused = commitmentOf(bare.jwk(), uint64(code))
+			}
+			if i%4 == 1 {
+				uc = reused
+			} else {
+				rc = reused
+			}
 		}
 		kp := &key
 		rec := map[string]interface{}{"label": label, "code": code, "key_type": kind}
